@@ -66,6 +66,22 @@ def runRows : List (Op α) → List α → Except Err (List α)
     | .error e => .error e
     | .ok ys => runRows ops ys
 
+/-- a pool of plain sequences: `xs' = op(xs)` joins the pool, `xs` stays what it was -/
+def poolStepRows (i : Nat) (op : Op α) (pool : List (List α)) : Except Err (List (List α)) :=
+  match pool[i]? with
+  | none => .error .index
+  | some xs =>
+    match stepRows off len op xs with
+    | .error e => .error e
+    | .ok ys => .ok (pool ++ [ys])
+
+def runPoolRows : List (Nat × Op α) → List (List α) → Except Err (List (List α))
+  | [], pool => .ok pool
+  | iop :: ops, pool =>
+    match poolStepRows off len iop.1 iop.2 pool with
+    | .error e => .error e
+    | .ok pool' => runPoolRows ops pool'
+
 /-- a finite sequence of operations on a plain sequence (any tie order at every sort) -/
 inductive RunSpec : List (Op α) → List α → Except Err (List α) → Prop
   | nil (xs) : RunSpec [] xs (.ok xs)
